@@ -4,7 +4,7 @@ CONSTANTS
   AllSchedules = FALSE
   PermuteModules = FALSE
   Ptrs = {4, 8}
-  PipeBases = {1, 2, 3, 4, 5}
+  PipeBases = {1, 2, 3, 4, 5, 6}
 INVARIANTS Replay
 CHECK_DEADLOCK FALSE
 VIEW View
